@@ -1,73 +1,1054 @@
+// C20 harness: the control plane's REST storage for the proxy group, built by the REAL
+// pkg/gateway/controlplane/registry/proxy/rest/rest.go on an in-memory storage backend, driven two ways per request:
+//
+//	L1  rest.BeforeCreate / rest.BeforeUpdate with the strategy of the endpoint's real store (the object right
+//	    after the strategy ran, compared DeepEqual-exactly with the Lean model KG.Model.Strategy);
+//	L2  the endpoint's real rest.Storage (Create / Update of the generic registry store, through the storage
+//	    codec), whose answer is what the property is judged on (KG.Spec.Strategy via the driver).
 package main
 
 import (
+	"bytes"
 	"context"
+	"encoding/json"
 	"flag"
 	"fmt"
 	"io"
+	"math"
 	"os"
+	"path/filepath"
+	"reflect"
+	"sort"
+	"strings"
 
+	"k8s.io/apimachinery/pkg/api/meta"
 	metav1 "k8s.io/apimachinery/pkg/apis/meta/v1"
 	"k8s.io/apimachinery/pkg/runtime"
+	"k8s.io/apimachinery/pkg/types"
 	genericapirequest "k8s.io/apiserver/pkg/endpoints/request"
 	"k8s.io/apiserver/pkg/registry/rest"
 	"k8s.io/klog"
 
+	"github.com/kubewharf/apiserver-runtime/pkg/registry"
+	runtimeschema "github.com/kubewharf/apiserver-runtime/pkg/schema"
 	"github.com/kubewharf/apiserver-runtime/pkg/scheme"
 	proxyv1alpha1 "github.com/kubewharf/kubegateway/pkg/apis/proxy/v1alpha1"
+
+	"verifharness/rig"
+)
+
+const (
+	protobufMedia = "application/vnd.kubernetes.protobuf"
+	jsonMedia     = "application/json"
 )
 
 func nsCtx(ns string) context.Context {
 	return genericapirequest.WithNamespace(context.Background(), ns)
 }
 
+// ---------------------------------------------------------------------------------------------------
+// cases
+
+// Step is one API request against the object. Submitted is the request body (a JSON document).
+type Step struct {
+	Op        string          `json:"op"` // create | main | status
+	Submitted json.RawMessage `json:"submitted"`
+	// MetaValid: whether the metadata is acceptable to the ObjectMeta validation apart from its two generation
+	// rules — known by construction (the generator says what it broke), an oracle parameter of the model.
+	MetaValid bool `json:"metaValid"`
+}
+
+// Case: an initial stored object (as a previous writer left it; null = none) and a list of requests.
+type Case struct {
+	Served string          `json:"served"` // how the kind is served (Served.Name)
+	Stream string          `json:"stream"`
+	Stored json.RawMessage `json:"stored"`
+	Steps  []Step          `json:"steps"`
+}
+
+// Groups is an object cut into the field groups of the model.
+type Groups struct {
+	Labels      string `json:"labels"`
+	Annotations string `json:"annotations"`
+	Generation  int64  `json:"generation"`
+	Spec        string `json:"spec"`
+	Status      string `json:"status"`
+}
+
+func (g Groups) hex() Groups {
+	return Groups{rig.Hex(g.Labels), rig.Hex(g.Annotations), g.Generation, rig.Hex(g.Spec), rig.Hex(g.Status)}
+}
+func (g Groups) unhex() Groups {
+	return Groups{rig.UnHex(g.Labels), rig.UnHex(g.Annotations), g.Generation, rig.UnHex(g.Spec), rig.UnHex(g.Status)}
+}
+
+// deepGroups: DeepEqual-faithful rendering of the decoded Go value.
+func deepGroups(obj runtime.Object) Groups {
+	acc, err := meta.Accessor(obj)
+	if err != nil {
+		return Groups{}
+	}
+	v := reflect.ValueOf(obj).Elem()
+	return Groups{
+		Labels:      deepCanon(reflect.ValueOf(acc.GetLabels())),
+		Annotations: deepCanon(reflect.ValueOf(acc.GetAnnotations())),
+		Generation:  acc.GetGeneration(),
+		Spec:        deepCanon(v.FieldByName("Spec")),
+		Status:      deepCanon(v.FieldByName("Status")),
+	}
+}
+
+// apiGroups: the object as the API renders it (JSON with omitempty), cut into the same groups.
+func apiGroups(obj runtime.Object) Groups {
+	b, err := json.Marshal(obj)
+	if err != nil {
+		return Groups{Spec: "marshal error " + err.Error()}
+	}
+	m := toMap(b)
+	md, _ := m["metadata"].(map[string]interface{})
+	acc, _ := meta.Accessor(obj)
+	return Groups{Labels: canonJSON(md["labels"]), Annotations: canonJSON(md["annotations"]), Generation: acc.GetGeneration(),
+		Spec: canonJSON(m["spec"]), Status: canonJSON(m["status"])}
+}
+
+// ---------------------------------------------------------------------------------------------------
+// the harness state
+
+type H struct {
+	c      *rig.Ctx
+	planes []*Plane
+	served map[string]*Served
+	names  []string
+	obs    map[string]int
+}
+
+func (s *Served) decoder() runtime.Decoder {
+	info, _ := runtime.SerializerInfoForMediaType(scheme.Codecs.SupportedMediaTypes(), jsonMedia)
+	return scheme.Codecs.DecoderToVersion(info.Serializer, s.HubGV)
+}
+
+// decode is what the API handlers do with a request body (DecoderToVersion(json, hub) + defaulting).
+func (s *Served) decode(doc []byte) (runtime.Object, error) {
+	gvk := s.HubGV.WithKind(s.Kind)
+	o, _, err := s.decoder().Decode(doc, &gvk, s.Main.NewFunc())
+	return o, err
+}
+
+type regFlags struct {
+	HasMeta      bool `json:"hasMeta"`
+	HasSpec      bool `json:"hasSpec"`
+	HasStatus    bool `json:"hasStatus"`
+	SubStatus    bool `json:"subStatus"`
+	OptSubStatus bool `json:"optSubStatus"`
+}
+
+// mainStrategyFlags reads `subStatus` of the registry.DefaultRESTStrategy inside a store's strategy.
+func mainStrategyFlags(strategy interface{}) (subStatus bool, err error) {
+	v := reflect.ValueOf(strategy)
+	for i := 0; i < 3; i++ {
+		if v.Kind() == reflect.Interface || v.Kind() == reflect.Ptr {
+			v = v.Elem()
+		}
+		if v.Kind() == reflect.Struct && v.Type().Name() == "DefaultStatusRESTStrategy" {
+			v = v.Field(0)
+			continue
+		}
+		break
+	}
+	if v.Kind() != reflect.Struct || v.Type().Name() != "DefaultRESTStrategy" {
+		return false, fmt.Errorf("strategy is a %T, not registry.DefaultRESTStrategy", strategy)
+	}
+	f := v.FieldByName("subStatus")
+	if !f.IsValid() || f.Kind() != reflect.Bool {
+		return false, fmt.Errorf("registry.DefaultRESTStrategy has no bool field subStatus any more")
+	}
+	return f.Bool(), nil
+}
+
+func (s *Served) flags() (regFlags, error) {
+	hm, hs, ht := registry.HasObjectMetaSpecStatus(s.Main.NewFunc())
+	sub, err := mainStrategyFlags(s.Main.UpdateStrategy)
+	if err != nil {
+		return regFlags{}, err
+	}
+	if s.Status != nil {
+		if _, ok := s.Status.UpdateStrategy.(registry.DefaultStatusRESTStrategy); !ok {
+			return regFlags{}, fmt.Errorf("status store of %s has update strategy %T", s.Name, s.Status.UpdateStrategy)
+		}
+		inner, err := mainStrategyFlags(s.Status.UpdateStrategy)
+		if err != nil || inner != sub {
+			return regFlags{}, fmt.Errorf("status strategy of %s does not wrap the main strategy (%v)", s.Name, err)
+		}
+		csub, err := mainStrategyFlags(s.Status.CreateStrategy)
+		if err != nil || csub != sub {
+			return regFlags{}, fmt.Errorf("status store of %s creates with another strategy (%v)", s.Name, err)
+		}
+	}
+	return regFlags{hm, hs, ht, sub, s.Status != nil}, nil
+}
+
+func (s *Served) key(name, ns string) string {
+	k, err := s.Main.KeyFunc(s.ctx(ns), name)
+	if err != nil {
+		return "/invalid/" + name
+	}
+	return k
+}
+
+// toMap parses a document keeping numbers exact (generation can be MaxInt64).
+func toMap(doc []byte) map[string]interface{} {
+	var m map[string]interface{}
+	d := json.NewDecoder(bytes.NewReader(doc))
+	d.UseNumber()
+	d.Decode(&m)
+	return m
+}
+
+func docMeta(doc []byte) (name, ns string) {
+	var m struct {
+		Metadata struct{ Name, Namespace string }
+	}
+	json.Unmarshal(doc, &m)
+	return m.Metadata.Name, m.Metadata.Namespace
+}
+
+// ---------------------------------------------------------------------------------------------------
+// running one case on the real code and on the model
+
+type stepTrace struct {
+	Op       string      `json:"op"`
+	Old      *Groups     `json:"stored_api_view,omitempty"`
+	Err1     string      `json:"before_err,omitempty"`
+	Out1     *Groups     `json:"after_strategy,omitempty"`
+	Err2     string      `json:"store_err,omitempty"`
+	Out2     *Groups     `json:"store_answer_api_view,omitempty"`
+	ModelRej string      `json:"model_rej,omitempty"`
+	Model    interface{} `json:"model_out,omitempty"`
+}
+
+func errClass(err error) string {
+	if err == nil {
+		return ""
+	}
+	s := err.Error()
+	if len(s) > 160 {
+		s = s[:160]
+	}
+	return s
+}
+
+// run executes the case; returns false at the first failure (recorded when record is set).
+func (h *H) run(cs Case, record bool) bool {
+	f := h.eval(cs)
+	if f != nil && record {
+		h.c.Fail(*f)
+	}
+	return f == nil
+}
+
+// eval executes the case on the real code and on the model; nil = everything agreed and the property held.
+func (h *H) eval(cs Case) *rig.Failure {
+	c := h.c
+	var trace []stepTrace
+	fail := func(kind, class, what string, model interface{}) *rig.Failure {
+		return &rig.Failure{Kind: kind, Class: class, What: what, Case: cs, Impl: trace, Model: model}
+	}
+	s := h.served[cs.Served]
+	if s == nil {
+		return fail("diff", "c20.unknown-served", "the case names "+cs.Served+", which the real storage map does not serve (served: "+strings.Join(h.names, ",")+")", nil)
+	}
+	fl, err := s.flags()
+	if err != nil {
+		return fail("diff", "c20.strategy-shape", err.Error(), nil)
+	}
+	served := s.StatusREST() != nil
+	zeroAPI := apiGroups(s.Main.NewFunc()).Status
+	zeroDeep := deepGroups(s.Main.NewFunc()).Status
+	s.Mem.Reset()
+	name, ns := "", ""
+	if len(cs.Stored) > 0 && string(cs.Stored) != "null" {
+		so, err := s.decode(cs.Stored)
+		if err != nil {
+			return fail("diff", "c20.bad-case", "stored document does not decode: "+err.Error(), nil)
+		}
+		name, ns = docMeta(cs.Stored)
+		if err := s.Mem.Seed(s.key(name, ns), so); err != nil {
+			return fail("diff", "c20.bad-case", "cannot seed: "+err.Error(), nil)
+		}
+	}
+	for i, st := range cs.Steps {
+		tr := stepTrace{Op: st.Op}
+		trace = append(trace, tr)
+		t := &trace[len(trace)-1]
+		if name == "" {
+			name, ns = docMeta(st.Submitted)
+		}
+		ctx := s.ctx(ns)
+		key := s.key(name, ns)
+		// the stored state, as the store will read it
+		var old runtime.Object
+		if _, ok := s.Mem.Raw(key); ok {
+			old = s.Main.NewFunc()
+			if err := s.Mem.Get(ctx, key, "", old, false); err != nil {
+				return fail("diff", "c20.bad-case", "stored object unreadable: "+err.Error(), nil)
+			}
+		}
+		var oldDeep, oldAPI Groups
+		if old != nil {
+			oldDeep, oldAPI = deepGroups(old), apiGroups(old)
+			t.Old = &oldAPI
+		}
+		endpoint := s.Main
+		var endpointREST rest.Storage = s.MainREST
+		if st.Op == "status" {
+			if !served {
+				// no such endpoint on the real storage map; the model must say the same
+				var m struct{ Rej string }
+				sub, _ := s.decode(st.Submitted)
+				if sub == nil {
+					return fail("diff", "c20.bad-case", "submitted document does not decode", nil)
+				}
+				if err := c.Model("C20.op", h.modelArgs(st, fl, zeroDeep, old, oldDeep, deepGroups(sub)), &m); err != nil {
+					return fail("diff", "c20.model-error", err.Error(), nil)
+				}
+				if m.Rej != "notServed" {
+					return fail("diff", "c20.served", fmt.Sprintf("step %d: no status endpoint is served for %s but the model answers %q", i, s.Name, m.Rej), m)
+				}
+				continue
+			}
+			endpoint, endpointREST = s.Status, s.StatusREST()
+		}
+		// ---- L1: BeforeCreate / BeforeUpdate with the endpoint's strategy
+		obj, err := s.decode(st.Submitted)
+		if err != nil {
+			return fail("diff", "c20.bad-case", "submitted document does not decode: "+err.Error(), nil)
+		}
+		subDeep := deepGroups(obj)
+		var err1 error
+		msg, panicked := rig.Recover(func() {
+			if old == nil || st.Op == "create" {
+				if old != nil {
+					err1 = fmt.Errorf("AlreadyExists")
+					return
+				}
+				err1 = rest.BeforeCreate(endpoint.CreateStrategy, ctx, obj)
+			} else {
+				oldc := old.DeepCopyObject()
+				// Store.Update: an update without resourceVersion is unconditional and gets the stored one
+				oa, _ := meta.Accessor(oldc)
+				na, _ := meta.Accessor(obj)
+				na.SetResourceVersion(oa.GetResourceVersion())
+				err1 = rest.BeforeUpdate(endpoint.UpdateStrategy, ctx, obj, oldc)
+			}
+		})
+		if panicked {
+			return fail("judge", "c20.panic", fmt.Sprintf("step %d (%s): BeforeCreate/BeforeUpdate panicked: %s", i, st.Op, msg), nil)
+		}
+		t.Err1 = errClass(err1)
+		var out1Deep, out1API Groups
+		if err1 == nil {
+			out1Deep, out1API = deepGroups(obj), apiGroups(obj)
+			t.Out1 = &out1API
+		}
+		if st.Op == "create" && old != nil {
+			return fail("diff", "c20.bad-case", "create against an existing object", nil)
+		}
+		// ---- model
+		var m struct {
+			Rej     string
+			Out     *Groups
+			Created bool
+		}
+		if err := c.Model("C20.op", h.modelArgs(st, fl, zeroDeep, old, oldDeep, subDeep), &m); err != nil {
+			return fail("diff", "c20.model-error", err.Error(), nil)
+		}
+		t.ModelRej = m.Rej
+		if m.Out != nil {
+			u := m.Out.unhex()
+			t.Model = u
+		}
+		if (m.Rej == "") != (err1 == nil) {
+			return fail("diff", "c20.accept", fmt.Sprintf("step %d (%s on %s): real BeforeCreate/BeforeUpdate error=%q, model rejection=%q (metaValid=%v)", i, st.Op, s.Name, errClass(err1), m.Rej, st.MetaValid), m)
+		}
+		if err1 == nil {
+			mo := m.Out.unhex()
+			if mo != out1Deep {
+				return fail("diff", "c20.strategy-output", fmt.Sprintf("step %d (%s on %s): after the strategy the real object is %+v, the model's is %+v", i, st.Op, s.Name, out1Deep, mo), mo)
+			}
+		}
+		// ---- L2: the endpoint's rest.Storage
+		var out2 runtime.Object
+		var err2 error
+		created := false
+		obj2, _ := s.decode(st.Submitted)
+		msg, panicked = rig.Recover(func() {
+			if st.Op == "create" {
+				out2, err2 = endpointREST.(rest.Creater).Create(ctx, obj2, rest.ValidateAllObjectFunc, &metav1.CreateOptions{})
+				created = true
+			} else {
+				out2, created, err2 = endpointREST.(rest.Updater).Update(ctx, name, rest.DefaultUpdatedObjectInfo(obj2), rest.ValidateAllObjectFunc, rest.ValidateAllObjectUpdateFunc, false, &metav1.UpdateOptions{})
+			}
+		})
+		if panicked {
+			return fail("judge", "c20.panic", fmt.Sprintf("step %d (%s): the store panicked: %s", i, st.Op, msg), nil)
+		}
+		t.Err2 = errClass(err2)
+		if (err2 == nil) != (err1 == nil) {
+			return fail("diff", "c20.store-accept", fmt.Sprintf("step %d (%s on %s): BeforeCreate/BeforeUpdate error=%q but the store's error=%q", i, st.Op, s.Name, errClass(err1), errClass(err2)), nil)
+		}
+		if err2 != nil {
+			h.obs["rejected"]++
+			continue
+		}
+		if created != m.Created {
+			return fail("diff", "c20.created", fmt.Sprintf("step %d (%s on %s): store created=%v, model created=%v", i, st.Op, s.Name, created, m.Created), nil)
+		}
+		out2API := apiGroups(out2)
+		t.Out2 = &out2API
+		if out2API != out1API {
+			return fail("diff", "c20.store-output", fmt.Sprintf("step %d (%s on %s): the store answered %+v but the object after BeforeCreate/BeforeUpdate renders as %+v", i, st.Op, s.Name, out2API, out1API), nil)
+		}
+		// what a later read shows must be what was answered
+		back := s.Main.NewFunc()
+		if err := s.Mem.Get(ctx, key, "", back, false); err != nil || apiGroups(back) != out2API {
+			return fail("diff", "c20.read-back", fmt.Sprintf("step %d: read-back differs from the answer (%v)", i, err), nil)
+		}
+		// ---- judge, on what the API shows
+		op := st.Op
+		if created {
+			op = "create"
+		}
+		var j struct {
+			Violations            []string
+			StatusAnnotationsOnly bool
+		}
+		jargs := map[string]interface{}{"op": op, "served": served, "zero": rig.Hex(zeroAPI), "out": out2API.hex()}
+		if op != "create" {
+			jargs["stored"] = oldAPI.hex()
+		}
+		if err := c.Model("C20.judge", jargs, &j); err != nil {
+			return fail("diff", "c20.model-error", err.Error(), nil)
+		}
+		if j.StatusAnnotationsOnly {
+			h.obs["status-update-changed-annotations-generation-kept"]++
+		}
+		if len(j.Violations) > 0 {
+			v := j.Violations[0]
+			class := "c20." + v
+			what := fmt.Sprintf("step %d: %s of %s (%s): %s; stored %+v, answered %+v", i, st.Op, s.Kind, s.Name, v, oldAPI, out2API)
+			if v == "generation-bumped-without-change" && (subDeep.Spec != oldDeep.Spec || subDeep.Annotations != oldDeep.Annotations) {
+				// spec and annotations render identically before and after, but the decoded Go values differ
+				// (an explicit empty list/map/bytes against an absent one): its own class
+				class = "c20.generation-bumped-on-empty-vs-absent"
+				what = fmt.Sprintf("step %d: %s of %s (%s): generation %d -> %d although spec and annotations read the same before and after; the request spelled an empty list/map/bytes out (or the store held one): decoded spec %s vs %s, annotations %s vs %s",
+					i, st.Op, s.Kind, s.Name, oldAPI.Generation, out2API.Generation, subDeep.Spec, oldDeep.Spec, subDeep.Annotations, oldDeep.Annotations)
+			}
+			return fail("judge", class, what, j)
+		}
+	}
+	return nil
+}
+
+func (h *H) modelArgs(st Step, fl regFlags, zeroDeep string, old runtime.Object, oldDeep, subDeep Groups) map[string]interface{} {
+	a := map[string]interface{}{"op": st.Op, "reg": fl, "metaValid": st.MetaValid, "zero": rig.Hex(zeroDeep), "submitted": subDeep.hex(), "stored": nil}
+	if old != nil {
+		a["stored"] = oldDeep.hex()
+	}
+	return a
+}
+
+func (s *Served) StatusREST() rest.Storage {
+	if s.StatusRESTv == nil {
+		return nil
+	}
+	return s.StatusRESTv
+}
+
+// ---------------------------------------------------------------------------------------------------
+// generators
+
+var (
+	labelPool = []map[string]string{nil, {"app": "gw"}, {"app": "gw", "tier": "edge"}, {"tier": "core"}}
+	annPool   = []map[string]string{nil, {"proxy.kubegateway.io/feature-gates": "A=true"}, {"proxy.kubegateway.io/feature-gates": "A=false"}, {"note": "x", "other": ""}}
+	genPool   = []int64{1, 1, 2, 5, 5, 41, 1 << 40, math.MaxInt64 - 1}
+)
+
+func copyMap(m map[string]string) map[string]string {
+	if m == nil {
+		return nil
+	}
+	r := map[string]string{}
+	for k, v := range m {
+		r[k] = v
+	}
+	return r
+}
+
+// genStored builds a typed object as a previous writer could have left it, rendered to a document and passed
+// once through the request decoder (defaulting) so that it is in the form the server holds.
+func (h *H) genStored(s *Served) []byte {
+	r := h.c.Rng
+	obj := s.Main.NewFunc()
+	v := reflect.ValueOf(obj).Elem()
+	if f := v.FieldByName("Spec"); f.IsValid() {
+		fill(r, f, 0)
+	}
+	if f := v.FieldByName("Status"); f.IsValid() && r.Intn(3) != 0 {
+		fill(r, f, 0)
+	}
+	acc, _ := meta.Accessor(obj)
+	acc.SetName(rig.Pick(r, []string{"a", "b"}))
+	if s.Namespaced {
+		acc.SetNamespace("ns1")
+	}
+	acc.SetLabels(copyMap(rig.Pick(r, labelPool)))
+	acc.SetAnnotations(copyMap(rig.Pick(r, annPool)))
+	acc.SetGeneration(rig.Pick(r, genPool))
+	acc.SetUID(types.UID("uid-" + acc.GetName()))
+	acc.SetCreationTimestamp(metav1.Unix(1700000000, 0))
+	if r.Intn(6) == 0 {
+		acc.SetFinalizers([]string{"example.com/hold"})
+	}
+	return h.normalise(s, obj)
+}
+
+func (h *H) normalise(s *Served, obj runtime.Object) []byte {
+	b, _ := json.Marshal(obj)
+	o, err := s.decode(b)
+	if err != nil {
+		fmt.Fprintln(os.Stderr, "generator produced an undecodable document:", err, string(b))
+		os.Exit(2)
+	}
+	b, _ = json.Marshal(o)
+	return b
+}
+
+const (
+	dLabels = 1 << iota
+	dAnnotations
+	dSpec
+	dStatus
+	dGeneration
+	dOther
+)
+
+// genSubmitted derives a request body from the stored document: any subset of field groups is changed.
+func (h *H) genSubmitted(s *Served, stored []byte, mask int) []byte {
+	r := h.c.Rng
+	obj, err := s.decode(stored)
+	if err != nil {
+		fmt.Fprintln(os.Stderr, "generator: document does not decode:", err, string(stored))
+		os.Exit(2)
+	}
+	v := reflect.ValueOf(obj).Elem()
+	acc, _ := meta.Accessor(obj)
+	if mask&dLabels != 0 {
+		acc.SetLabels(copyMap(rig.Pick(r, labelPool)))
+	}
+	if mask&dAnnotations != 0 {
+		acc.SetAnnotations(copyMap(rig.Pick(r, annPool)))
+	}
+	if mask&dSpec != 0 {
+		if f := v.FieldByName("Spec"); f.IsValid() {
+			mutate(r, f, 0)
+		}
+	}
+	if mask&dStatus != 0 {
+		if f := v.FieldByName("Status"); f.IsValid() {
+			mutate(r, f, 0)
+		}
+	}
+	if mask&dGeneration != 0 {
+		acc.SetGeneration(rig.Pick(r, []int64{0, 1, 3, 99, -4, math.MaxInt64}))
+	}
+	if mask&dOther != 0 {
+		switch r.Intn(4) {
+		case 0:
+			acc.SetUID("") // a client that does not send the uid
+		case 1:
+			acc.SetCreationTimestamp(metav1.Time{})
+		case 2:
+			acc.SetFinalizers([]string{"example.com/hold", "example.com/other"})
+		case 3:
+			acc.SetClusterName("somewhere")
+		}
+	}
+	acc.SetResourceVersion("")
+	return h.normalise(s, obj)
+}
+
+func randMask(r interface{ Intn(int) int }) int {
+	switch r.Intn(10) {
+	case 0, 1:
+		return 0 // nothing differs
+	case 2:
+		return 1 << uint(r.Intn(6)) // exactly one group
+	case 3:
+		return dLabels | dStatus | dGeneration | dOther // everything but spec and annotations
+	}
+	m := 0
+	for b := 0; b < 6; b++ {
+		if r.Intn(3) == 0 {
+			m |= 1 << uint(b)
+		}
+	}
+	return m
+}
+
+// breakMeta makes the metadata unacceptable to the ObjectMeta validation in a known way.
+func (h *H) breakMeta(s *Served, doc []byte, create bool) []byte {
+	r := h.c.Rng
+	m := toMap(doc)
+	md, _ := m["metadata"].(map[string]interface{})
+	if md == nil {
+		md = map[string]interface{}{}
+		m["metadata"] = md
+	}
+	k := r.Intn(3)
+	if create && k == 1 {
+		k = 0
+	}
+	switch k {
+	case 0:
+		md["labels"] = map[string]interface{}{"app": "not a valid label value!"}
+	case 1:
+		md["uid"] = "another-uid"
+	case 2:
+		md["name"] = "Not_A_DNS_Name"
+	}
+	b, _ := json.Marshal(m)
+	return b
+}
+
+// injectEmpties spells out empty lists / maps / byte strings (and nulls) at omitempty positions of a document.
+func injectEmpties(r interface{ Intn(int) int }, m map[string]interface{}, t reflect.Type, p int) int {
+	n := 0
+	if t.Kind() == reflect.Ptr {
+		t = t.Elem()
+	}
+	if t.Kind() != reflect.Struct {
+		return 0
+	}
+	for i := 0; i < t.NumField(); i++ {
+		f := t.Field(i)
+		tag := strings.Split(f.Tag.Get("json"), ",")
+		name := tag[0]
+		if name == "" || name == "-" || f.PkgPath != "" {
+			continue
+		}
+		ft := f.Type
+		cur, present := m[name]
+		switch {
+		case ft.Kind() == reflect.Slice && ft.Elem().Kind() == reflect.Uint8:
+			if !present && r.Intn(p) == 0 {
+				m[name] = ""
+				n++
+			}
+		case ft.Kind() == reflect.Slice:
+			if !present && r.Intn(p) == 0 {
+				if r.Intn(4) == 0 {
+					m[name] = nil
+				} else {
+					m[name] = []interface{}{}
+					n++
+				}
+			} else if l, ok := cur.([]interface{}); ok {
+				for _, e := range l {
+					if em, ok := e.(map[string]interface{}); ok {
+						n += injectEmpties(r, em, ft.Elem(), p)
+					}
+				}
+			}
+		case ft.Kind() == reflect.Map:
+			if !present && r.Intn(p) == 0 {
+				m[name] = map[string]interface{}{}
+				n++
+			}
+		case ft.Kind() == reflect.Struct || (ft.Kind() == reflect.Ptr && ft.Elem().Kind() == reflect.Struct):
+			if em, ok := cur.(map[string]interface{}); ok {
+				n += injectEmpties(r, em, ft, p)
+			}
+		}
+	}
+	return n
+}
+
+func (h *H) withEmpties(s *Served, doc []byte) ([]byte, int) {
+	r := h.c.Rng
+	m := toMap(doc)
+	n := 0
+	md, _ := m["metadata"].(map[string]interface{})
+	if md != nil {
+		for _, k := range []string{"annotations", "labels"} {
+			if _, ok := md[k]; !ok && r.Intn(3) == 0 {
+				md[k] = map[string]interface{}{}
+				n++
+			}
+		}
+	}
+	t := reflect.TypeOf(s.Main.NewFunc()).Elem()
+	for _, g := range []string{"Spec", "Status"} {
+		f, ok := t.FieldByName(g)
+		if !ok {
+			continue
+		}
+		name := strings.Split(f.Tag.Get("json"), ",")[0]
+		gm, _ := m[name].(map[string]interface{})
+		if gm == nil {
+			gm = map[string]interface{}{}
+			m[name] = gm
+		}
+		n += injectEmpties(r, gm, f.Type, 4)
+	}
+	b, _ := json.Marshal(m)
+	return b, n
+}
+
+// genCase draws one case of the given stream.
+func (h *H) genCase(s *Served, stream string) Case {
+	r := h.c.Rng
+	cs := Case{Served: s.Name, Stream: stream}
+	stored := h.genStored(s)
+	nSteps := 1
+	if stream == "history" {
+		nSteps = 2 + r.Intn(5)
+	}
+	hasStored := r.Intn(5) != 0
+	if stream == "history" {
+		hasStored = r.Intn(2) == 0
+	}
+	if hasStored {
+		cs.Stored = stored
+		if stream == "extreme" {
+			m := toMap(stored)
+			md := m["metadata"].(map[string]interface{})
+			md["generation"] = rig.Pick(r, []int64{math.MaxInt64, math.MaxInt64, -3, 0})
+			cs.Stored, _ = json.Marshal(m)
+		}
+		if stream == "explicit-empty" && r.Intn(2) == 0 {
+			cs.Stored, _ = h.withEmpties(s, stored)
+		}
+	} else {
+		cs.Stored = json.RawMessage("null")
+	}
+	cur := stored
+	exists := hasStored
+	for i := 0; i < nSteps; i++ {
+		st := Step{MetaValid: true}
+		switch {
+		case !exists && r.Intn(3) != 0:
+			st.Op = "create"
+		case r.Intn(5) < 3:
+			st.Op = "main"
+		default:
+			st.Op = "status"
+		}
+		st.Submitted = h.genSubmitted(s, cur, randMask(r))
+		if !exists {
+			// a client creating an object sends neither uid nor creationTimestamp (both would be kept otherwise)
+			m := toMap(st.Submitted)
+			md := m["metadata"].(map[string]interface{})
+			delete(md, "uid")
+			delete(md, "creationTimestamp")
+			st.Submitted, _ = json.Marshal(m)
+		}
+		if stream == "explicit-empty" {
+			st.Submitted, _ = h.withEmpties(s, st.Submitted)
+		}
+		if stream == "invalid-meta" || (stream == "history" && r.Intn(6) == 0) {
+			st.Submitted = h.breakMeta(s, st.Submitted, !exists)
+			st.MetaValid = false
+		}
+		cs.Steps = append(cs.Steps, st)
+		if st.MetaValid && !(st.Op == "status" && s.Status == nil) {
+			exists = true
+			cur = st.Submitted
+		}
+	}
+	return cs
+}
+
+// diffMask says which field groups differ between the stored and the (first) submitted document, as rendered.
+func (h *H) diffMask(s *Served, cs Case) string {
+	if len(cs.Steps) == 0 {
+		return "-"
+	}
+	if string(cs.Stored) == "null" {
+		return "new"
+	}
+	a, err1 := s.decode(cs.Stored)
+	b, err2 := s.decode(cs.Steps[0].Submitted)
+	if err1 != nil || err2 != nil {
+		return "undecodable"
+	}
+	ga, gb := apiGroups(a), apiGroups(b)
+	out := ""
+	if ga.Labels != gb.Labels {
+		out += "L"
+	}
+	if ga.Annotations != gb.Annotations {
+		out += "A"
+	}
+	if ga.Spec != gb.Spec {
+		out += "S"
+	}
+	if ga.Status != gb.Status {
+		out += "T"
+	}
+	if ga.Generation != gb.Generation {
+		out += "G"
+	}
+	if out == "" {
+		out = "none"
+	}
+	return out
+}
+
+// ---------------------------------------------------------------------------------------------------
+// shrinking: fewer steps, then fewer field groups, then fewer spec/status members
+
+func (h *H) shrink(cs Case) Case {
+	fails := func(x Case) bool { return !h.run(x, false) }
+	if len(cs.Steps) > 1 {
+		cs.Steps = rig.ShrinkList(cs.Steps, func(l []Step) bool { x := cs; x.Steps = l; return len(l) > 0 && fails(x) })
+	}
+	edit := func(x Case, f func(m map[string]interface{})) Case {
+		y := Case{Served: x.Served, Stream: x.Stream, Stored: x.Stored}
+		if string(x.Stored) != "null" && len(x.Stored) > 0 {
+			m := toMap(x.Stored)
+			f(m)
+			y.Stored, _ = json.Marshal(m)
+		}
+		for _, st := range x.Steps {
+			m := toMap(st.Submitted)
+			f(m)
+			b, _ := json.Marshal(m)
+			y.Steps = append(y.Steps, Step{Op: st.Op, Submitted: b, MetaValid: st.MetaValid})
+		}
+		return y
+	}
+	try := func(f func(m map[string]interface{})) {
+		if y := edit(cs, f); fails(y) {
+			cs = y
+		}
+	}
+	for _, g := range []string{"status", "spec"} {
+		g := g
+		try(func(m map[string]interface{}) { delete(m, g) })
+	}
+	for _, k := range []string{"labels", "annotations", "finalizers"} {
+		k := k
+		try(func(m map[string]interface{}) {
+			if md, ok := m["metadata"].(map[string]interface{}); ok {
+				delete(md, k)
+			}
+		})
+	}
+	for _, g := range []string{"status", "spec"} {
+		keys := map[string]bool{}
+		collect := func(m map[string]interface{}) {
+			if gm, ok := m[g].(map[string]interface{}); ok {
+				for k := range gm {
+					keys[k] = true
+				}
+			}
+		}
+		edit(cs, collect)
+		ks := []string{}
+		for k := range keys {
+			ks = append(ks, k)
+		}
+		sort.Strings(ks)
+		for _, k := range ks {
+			g, k := g, k
+			try(func(m map[string]interface{}) {
+				if gm, ok := m[g].(map[string]interface{}); ok {
+					delete(gm, k)
+				}
+			})
+		}
+	}
+	return cs
+}
+
+// ---------------------------------------------------------------------------------------------------
+
+type genFact struct {
+	Kind, Resource                                                           string
+	Namespaced, StrategySubStatus, OptSubStatus, HasMeta, HasSpec, HasStatus bool
+	StatusFields                                                             int
+	Served                                                                   bool
+}
+
+// checkRegistrations compares the regenerated fact (tools/extract/c20, read from the source text) with the
+// storage map the real code built.
+func (h *H) checkRegistrations() {
+	c := h.c
+	var facts []genFact
+	if err := c.Model("C20.registrations", map[string]interface{}{}, &facts); err != nil {
+		c.Fail(rig.Failure{Kind: "diff", Class: "c20.model-error", What: err.Error()})
+		return
+	}
+	real := map[string]string{}
+	for _, s := range h.planes[0].Served {
+		if !s.Registered {
+			continue
+		}
+		fl, err := s.flags()
+		if err != nil {
+			c.Fail(rig.Failure{Kind: "diff", Class: "c20.strategy-shape", What: err.Error()})
+			return
+		}
+		nf := 0
+		if f, ok := reflect.TypeOf(s.Main.NewFunc()).Elem().FieldByName("Status"); ok && f.Type.Kind() == reflect.Struct {
+			nf = f.Type.NumField()
+		}
+		real[s.Resource] = fmt.Sprintf("kind=%s namespaced=%v strategySubStatus=%v served=%v meta=%v spec=%v status=%v statusFields=%d",
+			s.Kind, s.Namespaced, fl.SubStatus, s.Status != nil, fl.HasMeta, fl.HasSpec, fl.HasStatus, nf)
+	}
+	gen := map[string]string{}
+	for _, f := range facts {
+		gen[f.Resource] = fmt.Sprintf("kind=%s namespaced=%v strategySubStatus=%v served=%v meta=%v spec=%v status=%v statusFields=%d",
+			f.Kind, f.Namespaced, f.StrategySubStatus, f.Served, f.HasMeta, f.HasSpec, f.HasStatus, f.StatusFields)
+	}
+	if rig.Canon(real) != rig.Canon(gen) {
+		c.Fail(rig.Failure{Kind: "diff", Class: "c20.registration-fact", What: "the kinds read from rest.go by the extractor differ from the storage map the real code builds",
+			Impl: real, Model: gen})
+	}
+	c.SetExtra("registrations", real)
+}
+
+func (h *H) addPlane(media, suffix string) error {
+	p, err := NewPlane(media)
+	if err != nil {
+		return err
+	}
+	// probe registrations: kinds with a non-empty Status served with a status subresource
+	rlc := runtimeschema.GroupVersionKindResource{Group: proxyv1alpha1.SchemeGroupVersion.Group, Version: proxyv1alpha1.SchemeGroupVersion.Version,
+		Kind: "RateLimitCondition", Resource: "ratelimitconditions"}
+	if _, err := p.AddProbe("probe:ratelimitconditions+status", rlc, registry.ClusterScopeStorageStrategySingleton, true, ""); err != nil {
+		return err
+	}
+	wg := runtimeschema.GroupVersionKindResource{Group: widgetGV.Group, Version: widgetGV.Version, Kind: "Widget", Resource: "widgets"}
+	// no SetRESTStrategy: the factory's default (NamespacedStorageStrategySingleton), as a kind added without one gets
+	if _, err := p.AddProbe("probe:widgets+status", wg, nil, true, jsonMedia); err != nil {
+		return err
+	}
+	// a main strategy built with subStatus=true but no status endpoint
+	if _, err := p.AddProbe("probe:widgets-nostatus-endpoint", wg, registry.NewDefaultRESTStrategy(true, true), false, jsonMedia); err != nil {
+		return err
+	}
+	// neither (the way RateLimitCondition is registered), namespaced
+	if _, err := p.AddProbe("probe:widgets-plain", wg, registry.NewDefaultRESTStrategy(true, false), false, jsonMedia); err != nil {
+		return err
+	}
+	for _, s := range p.Served {
+		s.Name += suffix
+		h.served[s.Name] = s
+		h.names = append(h.names, s.Name)
+	}
+	h.planes = append(h.planes, p)
+	return nil
+}
+
 func main() {
 	fs := flag.NewFlagSet("klog", flag.ContinueOnError)
 	klog.InitFlags(fs)
 	fs.Set("logtostderr", "false")
+	fs.Set("alsologtostderr", "false")
 	klog.SetOutput(io.Discard)
-	p, err := NewPlane("application/vnd.kubernetes.protobuf")
-	if err != nil {
-		fmt.Println("ERR", err)
-		os.Exit(1)
-	}
-	for _, s := range p.Served {
-		fmt.Printf("%s kind=%s hub=%s ns=%v status=%v create=%T update=%T\n", s.Name, s.Kind, s.HubGV, s.Namespaced, s.Status != nil, s.Main.CreateStrategy, s.Main.UpdateStrategy)
-		if s.Status != nil {
-			fmt.Printf("   status update=%T %+v\n", s.Status.UpdateStrategy, s.Status.UpdateStrategy)
+	installWidget()
+	rig.Main("C20", func(c *rig.Ctx) {
+		h := &H{c: c, served: map[string]*Served{}, obs: map[string]int{}}
+		c.SetRule("a case = one way a kind is served (the 2 registrations of rest.go as the real NewRESTStorageProvider builds them + 4 probe registrations through the same NewResourceREST; protobuf storage, JSON too in thorough) x an initial stored object or none x 1-6 requests (create / main update / status update; bodies are JSON documents derived from the stored one with any subset of {labels, annotations, spec, status, generation, other metadata} changed, spec/status filled by reflection from small pools so that draws collide; streams: roundtrip (no explicit empties), explicit-empty ({} [] \"\" null spelled out), invalid-meta, extreme (stored generation MaxInt64/negative/0), history); distinct = distinct canonical case; non-trivial = some field group differs or the object is new")
+		if err := h.addPlane(protobufMedia, ""); err != nil {
+			c.Fail(rig.Failure{Kind: "diff", Class: "c20.plane", What: "the control plane's REST storage can no longer be built the way the harness does: " + err.Error()})
+			return
 		}
-	}
-	s := p.Served[1]
-	info, _ := runtime.SerializerInfoForMediaType(scheme.Codecs.SupportedMediaTypes(), "application/json")
-	dec := scheme.Codecs.DecoderToVersion(info.Serializer, s.HubGV)
-	decode := func(doc string) runtime.Object {
-		gvk := s.HubGV.WithKind(s.Kind)
-		o, _, err := dec.Decode([]byte(doc), &gvk, s.Main.NewFunc())
-		if err != nil {
-			panic(err)
+		if c.Replay != "" {
+			h.addPlane(jsonMedia, "@json")
+			var cs Case
+			if err := c.LoadReplay(&cs); err != nil {
+				fmt.Fprintln(os.Stderr, err)
+				os.Exit(2)
+			}
+			c.Case(rig.Canon(cs), true, "replay", func() interface{} { return cs })
+			h.run(cs, true)
+			return
 		}
-		return o
-	}
-	ctx := context.Background()
-	o := decode(`{"metadata":{"name":"a"},"spec":{"servers":[{"endpoint":"https://x"}]}}`)
-	out, err := s.Main.Create(ctx, o, rest.ValidateAllObjectFunc, &metav1.CreateOptions{})
-	fmt.Println("create", err, out.(*proxyv1alpha1.UpstreamCluster).Generation)
-	for _, doc := range []string{
-		`{"metadata":{"name":"a"},"spec":{"servers":[{"endpoint":"https://x"}]}}`,
-		`{"metadata":{"name":"a","annotations":{}},"spec":{"servers":[{"endpoint":"https://x"}]}}`,
-		`{"metadata":{"name":"a","annotations":null},"spec":{"servers":[{"endpoint":"https://x"}]}}`,
-		`{"metadata":{"name":"a"},"spec":{"servers":[{"endpoint":"https://x"}],"dispatchPolicies":[]}}`,
-		`{"metadata":{"name":"a"},"spec":{"servers":[{"endpoint":"https://x"}],"secureServing":{"keyData":""}}}`,
-		`{"metadata":{"name":"a"},"spec":{"servers":[{"endpoint":"https://x"}]}}`,
-		`{"metadata":{"name":"a"},"spec":{"servers":[{"endpoint":"https://x"}]}}`,
-	} {
-		o := decode(doc)
-		out, _, err := s.Main.Update(ctx, "a", rest.DefaultUpdatedObjectInfo(o), rest.ValidateAllObjectFunc, rest.ValidateAllObjectUpdateFunc, false, &metav1.UpdateOptions{})
-		if err != nil {
-			fmt.Println("update err", err)
-			continue
+		h.checkRegistrations()
+		for _, s := range h.planes[0].Served {
+			if s.Registered && s.Status != nil {
+				if f, ok := reflect.TypeOf(s.Main.NewFunc()).Elem().FieldByName("Status"); ok && f.Type.Kind() == reflect.Struct && f.Type.NumField() == 0 {
+					c.Note("%s is served with a status subresource but its Status type has no fields: on it the status clauses hold trivially; they are exercised on the probe registrations (RateLimitCondition and a harness-defined kind served the same way)", s.Kind)
+				}
+			}
 		}
-		u := out.(*proxyv1alpha1.UpstreamCluster)
-		fmt.Printf("update gen=%d ann=%#v  doc=%s\n", u.Generation, u.Annotations, doc)
-	}
+		// corpus of past failures first
+		files, _ := filepath.Glob(filepath.Join(os.Getenv("VERIF_DIR"), "harness", "corpus", "C20", "*.json"))
+		sort.Strings(files)
+		for _, f := range files {
+			b, _ := os.ReadFile(f)
+			var env struct{ Case json.RawMessage }
+			var cs Case
+			if json.Unmarshal(b, &env) != nil || env.Case == nil || json.Unmarshal(env.Case, &cs) != nil {
+				continue
+			}
+			c.Case(string(env.Case), true, "corpus", nil)
+			c.Trace()
+			h.run(cs, true)
+		}
+		if c.Thorough() {
+			if err := h.addPlane(jsonMedia, "@json"); err != nil {
+				c.Fail(rig.Failure{Kind: "diff", Class: "c20.plane", What: err.Error()})
+				return
+			}
+		}
+		streams := []string{"roundtrip", "roundtrip", "roundtrip", "roundtrip", "history", "history", "explicit-empty", "invalid-meta", "extreme", "roundtrip"}
+		n := c.Budget(6000, 150000)
+		failedClasses := map[string]int{}
+		for i := 0; i < n && c.NFailures() < 12; i++ {
+			s := h.served[h.names[i%len(h.names)]]
+			stream := streams[(i/len(h.names))%len(streams)]
+			cs := h.genCase(s, stream)
+			mask := h.diffMask(s, cs)
+			ops := ""
+			for _, st := range cs.Steps {
+				ops += st.Op[:1]
+			}
+			if len(ops) > 2 {
+				ops = fmt.Sprintf("%d-steps", len(ops))
+			}
+			c.Case(rig.Canon(cs), mask != "none", fmt.Sprintf("%s/%s/%s/%s", s.Name, stream, ops, mask), func() interface{} { return cs })
+			c.Trace()
+			if !h.run(cs, false) {
+				small := h.shrink(cs)
+				f := h.eval(small)
+				if f == nil { // cannot happen (shrink keeps failing cases); be safe
+					f = h.eval(cs)
+				}
+				// two recorded failures per class are enough (a known finding is hit many times)
+				if f != nil {
+					if failedClasses[f.Class] < 2 {
+						c.Fail(*f)
+					}
+					failedClasses[f.Class]++
+				}
+			}
+		}
+		keys := []string{}
+		for k := range h.obs {
+			keys = append(keys, k)
+		}
+		sort.Strings(keys)
+		for _, k := range keys {
+			c.SetExtra("observed:"+k, h.obs[k])
+		}
+		if nobs := h.obs["status-update-changed-annotations-generation-kept"]; nobs > 0 {
+			c.Note("observation (not a violation under the reading chosen, see notes/C20.md): %d accepted status-subresource updates changed the annotations and kept the generation — annotations can be changed through /status without a generation bump", nobs)
+		}
+		for k, v := range failedClasses {
+			c.SetExtra("failing-cases:"+k, v)
+		}
+	})
 }
